@@ -318,8 +318,11 @@ def run(ctx):
             k += 1
             ctx.evaluations += 1
             ctx.traces += 1
-            if replay_emitter_history(ctx, case['hist'], use_global=(k % 2 == 0)):
-                ctx.nontrivial += 1
+            with ctx.guard('emitter', case):
+                if replay_emitter_history(ctx, case['hist'], use_global=(k % 2 == 0)):
+                    ctx.nontrivial += 1
+            if ctx.abort:
+                return
             if k % 30011 == 1:
                 ctx.sample(case)
         path.unlink()
@@ -336,8 +339,11 @@ def run(ctx):
             seen.add(key)
             ctx.evaluations += 1
             ctx.traces += 1
-            if replay_emitter_history(ctx, case['hist'], use_global=False):
-                ctx.nontrivial += 1
+            with ctx.guard('emitter', case):
+                if replay_emitter_history(ctx, case['hist'], use_global=False):
+                    ctx.nontrivial += 1
+            if ctx.abort:
+                return
         path.unlink()
         ctx.exhaustive = False
         # --- reporter histories
@@ -347,8 +353,11 @@ def run(ctx):
             k += 1
             ctx.evaluations += 1
             ctx.traces += 1
-            if replay_reporter_history(ctx, case['hist']):
-                ctx.nontrivial += 1
+            with ctx.guard('reporter', case):
+                if replay_reporter_history(ctx, case['hist']):
+                    ctx.nontrivial += 1
+            if ctx.abort:
+                return
             if k % 9973 == 1:
                 ctx.sample(case)
         path.unlink()
@@ -359,18 +368,24 @@ def run(ctx):
         for case in tlc.read_cases(path):
             ctx.evaluations += 1
             ctx.traces += 1
-            if replay_reporter_history(ctx, case['hist']):
-                ctx.nontrivial += 1
+            with ctx.guard('reporter', case):
+                if replay_reporter_history(ctx, case['hist']):
+                    ctx.nontrivial += 1
+            if ctx.abort:
+                return
         path.unlink()
         # --- C->S
         rng = np.random.RandomState(ctx.seed + 19)
         nh = 12 if ctx.quick else 120
         recs = []
-        for _ in range(nh):
-            recs += _random_emitter_trace(rng, len(recs) + 1, 200)
         rrecs = []
-        for _ in range(nh):
-            rrecs += _random_reporter_trace(rng, len(rrecs) + 1, 200)
+        with ctx.guard('emitter', None, seconds=600):
+            for _ in range(nh):
+                recs += _random_emitter_trace(rng, len(recs) + 1, 200)
+            for _ in range(nh):
+                rrecs += _random_reporter_trace(rng, len(rrecs) + 1, 200)
+        if ctx.abort:
+            return
     for chunk in [recs[k:k + 6030] for k in range(0, len(recs), 6030)]:
         for rid, clause in ctx.validate('Trace_Events', 'Trace_Events.cfg', chunk, timeout=1200):
             ctx.violation('emitter', 'recorded emitter call rejected by the specification: clause %s'
